@@ -235,6 +235,7 @@ func init() {
 }
 
 // flattenStmts renders statements in source order; compound statements become "<header> {" … "}".
+// `if verifhook.Enabled { … }` blocks (the add-only verification hooks) are skipped.
 func flattenStmts(fset *token.FileSet, stmts []ast.Stmt) []string {
 	var out []string
 	var funcLit func(prefix string, fl *ast.FuncLit, suffix string)
@@ -285,6 +286,9 @@ func flattenStmts(fset *token.FileSet, stmts []ast.Stmt) []string {
 			block(s)
 			out = append(out, "}")
 		case *ast.IfStmt:
+			if s.Init == nil && s.Else == nil && src(fset, s.Cond) == "verifhook.Enabled" {
+				return // verification hook call site (build tag verif): not part of the protocol
+			}
 			h := "if "
 			if s.Init != nil {
 				h += src(fset, s.Init) + "; "
